@@ -295,7 +295,11 @@ COMB_CELLS = {"$not", "$neg", "$reduce_and", "$reduce_or", "$reduce_xor", "$redu
 
 
 class Design:
-    def __init__(self, text):
+    def __init__(self, text, shift_signed_fill="zero"):
+        # "$shift" with A_SIGNED: what is shifted in from beyond the extension of A to max(A_WIDTH, Y_WIDTH).  "zero" is the
+        # published semantics (simlib: `$signed(A) >> B`, a logical shift of the extended operand); "undef" marks those bits
+        # undefined (used to attribute a mismatch to exactly this construct)
+        self.shift_signed_fill = shift_signed_fill
         self.mods, self.topname = parse(text)
         self.width = {}     # flat wire name -> width
         self.val = {}
@@ -675,14 +679,16 @@ class Design:
             # A is extended to max(A_WIDTH, Y_WIDTH) by its own signedness and shifted right by B.  What is shifted in from
             # beyond that extension is zero for unsigned A; for signed A it is left undefined here (see Appendix A).
             ew = max(aw, yw)
-            res = (ai >> b) & ym
+            if not a_s:
+                return (ai >> b) & ym, 0
+            ext = ai & ((1 << ew) - 1)          # two's complement pattern of A at the extended width
+            if self.shift_signed_fill == "zero":
+                return (ext >> b) & ym, 0
             x = 0
-            if a_s:
-                # result bit k comes from source bit b + k; undefined if b + k >= ew
-                for k in range(yw):
-                    if b + k >= ew:
-                        x |= 1 << k
-            return res & ~x, x
+            for k in range(yw):                 # result bit k comes from source bit b + k; beyond the extension: undefined
+                if b + k >= ew:
+                    x |= 1 << k
+            return (ext >> b) & ym & ~x, x
         raise Unreadable("cell type %s" % t)
 
     def run_proc(self, stmts, acc):
